@@ -39,11 +39,22 @@ from .np_eval import np_eval
 
 # ---- acceptance (relative to max|y^(k)| over the sample points), calibrated in c15.py's docstring -----------
 ACCEPT = {
-    "tight": {"direct": 1e-4, "transformed": 1e-3},     # DOP853 / RK45 / Radau / class:RK45 at rtol = atol = 1e-10; BVP 1e-8
-    "extra": {"direct": 1e-4, "transformed": 1e-3},     # RK23 / LSODA at rtol = atol = 1e-10, BDF at 1e-12
-    "default": {"direct": 5e-3, "transformed": 5e-3},   # every optional argument omitted (rtol 1e-8, atol 1e-6)
+    "ivp:tight": {"direct": 1e-4, "transformed": 1e-4},   # DOP853 / RK45 / Radau / class:RK45 at rtol = atol = 1e-10
+    "bvp:tight": {"direct": 1e-4, "transformed": 1e-3},   # tol = 1e-8
+    "ivp:extra": {"direct": 1e-4, "transformed": 1e-3},   # RK23 / BDF / LSODA at rtol = atol = 1e-10
+    "ivp:default": {"direct": 5e-3, "transformed": 5e-3}, # every optional argument omitted (rtol 1e-8, atol 1e-6)
 }
-IVP_TOL = {"BDF": 1e-12}                                # others 1e-10
+ACCEPT_F32_SPAN = 2e-2   # interval given as a float32 array AND a transformation: grid.rtransform maps the end points in float32
+IVP_TOL = {}             # rtol = atol per method, default 1e-10
+
+
+def accept_for(jtype, acc, how, spanform):
+    a = ACCEPT[f"{jtype}:{acc}"][how]
+    if jtype == "ivp" and how == "transformed" and spanform == "ndarray-float32":
+        a = max(a, ACCEPT_F32_SPAN)
+    return a
+
+
 # prescribed conditions met by the returned callable:
 #   IVP (one-step methods, whose dense output reproduces the step's end points): |returned - prescribed| <=
 #       IC_FACTOR * eps * (max|y^(k)| + cond(M) * max|data|), M the specification's Bell matrix at the initial
@@ -57,8 +68,8 @@ BVP_TOL = 1e-8
 IC_METHODS = ("DOP853", "RK45", "Radau", "RK23", "class:RK45", "default")
 EPS = 2.220446049250313e-16
 # the sample points are dyadic, i.e. the same numbers in float32; a transformation of grid.rtransform then works in
-# float32 (measured: up to 2e-6 of the scale), the interpolant of a direct solve does not care
-ACCEPT_F32 = {"direct": 1e-9, "transformed": 1e-3}
+# float32 (measured: up to 2.3e-6 of the scale); scipy's own interpolants (direct solve) lose up to 1.1e-7 (LSODA)
+ACCEPT_F32 = {"direct": 1e-4, "transformed": 3e-3}
 ACCEPT_SAME = 1e-12                                     # same numbers for another form of the same points
 EXTRA_METHODS = ("RK23", "BDF", "LSODA")
 
@@ -96,15 +107,22 @@ def make_poly_transform(coefs, lo, hi):
 
         def inverse(self, r):
             r = np.asarray(r, dtype=float)
-            a = np.full(r.shape, float(lo) - 0.05)
-            b = np.full(r.shape, float(hi) + 0.05)
-            for _ in range(24):                      # bisection on the monotone branch ...
+            lo_, hi_ = float(lo) - 0.05, float(hi) + 0.05
+            e0, e1 = float(P(lo)), float(P(hi))
+            x = np.clip(lo + (r - e0) * (hi - lo) / (e1 - e0), lo_, hi_)      # secant through the end points
+            for _ in range(8):                                                  # Newton, kept inside the bracket
+                x = np.clip(x - (ders[0](x) - r) / ders[1](x), lo_, hi_)
+            if np.all(np.abs(ders[0](x) - r) <= 1e-13 * (1.0 + np.abs(r))):
+                return x
+            a = np.full(r.shape, lo_)                                           # fall back: bisection + Newton
+            b = np.full(r.shape, hi_)
+            for _ in range(30):
                 m = 0.5 * (a + b)
                 up = (ders[0](m) - r) * self._sign < 0
                 a = np.where(up, m, a)
                 b = np.where(up, b, m)
             x = 0.5 * (a + b)
-            for _ in range(4):                       # ... polished by Newton steps
+            for _ in range(4):
                 x = x - (ders[0](x) - r) / ders[1](x)
             return x
 
@@ -498,11 +516,13 @@ def make_jobs(data):
                 jobs.append({"x": True, "pid": p["id"], "si": si_, "ti": ti, "solve": solve, "acc": acc_class(s),
                              "type": s["type"], "method": s["method"], "iv": p["iv"], "ord": p["ord"],
                              "key": ("x", p["id"], si_, ti)})
-    # the "other solve" of the no-shared-state clause: another BVP job of the list (a different problem or form)
-    for i, j in enumerate(jobs):
-        if j["type"] == "bvp" and i % 3 == 0:
-            o = jobs[(i + 7) % len(jobs)]
-            if o["type"] == "bvp":
+    # the "other solve" of the no-shared-state clause: for every third transformed BVP job the next transformed
+    # BVP job of ANOTHER problem (both go through _transform_solution_to_original_domain)
+    tb = [j for j in jobs if j["type"] == "bvp" and j["ti"] > 0]
+    for i, j in enumerate(tb):
+        if i % 3 == 0:
+            o = next((c for c in tb[i + 1:] + tb[:i] if c["pid"] != j["pid"]), None)
+            if o is not None:
                 j["again"] = {k: o[k] for k in ("pid", "si", "ti", "acc")}
     return jobs
 
@@ -542,24 +562,32 @@ def features(job):
     return tags
 
 
+THOROUGH_FRACTION = {"RK23": 0.34, "Radau": 0.5}      # of the assigned solves with these (slow) methods, seeded
+
+
+def select_thorough(jobs, rng):
+    return [j for j in jobs if j["type"] == "bvp" or rng.random() < THOROUGH_FRACTION.get(j["method"], 1.0)]
+
+
 def sample_quick(jobs, rng, n=170, per_tag=3):
     """Seeded sample of the assigned solves in which every dimension (tag of `features`) occurs at least
-    `per_tag` times (as far as it occurs at all), at most 14 solves with the slow methods."""
+    `per_tag` times (as far as it occurs at all); at most 4 / 5 / 5 solves with RK23 / Radau / BDF (slow at 1e-10)."""
     jobs = list(jobs)
     rng.shuffle(jobs)
-    count, out, chosen, slow = {}, [], set(), 0
+    count, out, chosen, slow = {}, [], set(), {}
+    cap = {"RK23": 4, "Radau": 5, "BDF": 5}
 
     def is_slow(j):
-        return j["type"] == "ivp" and j["method"] in ("Radau", "RK23", "BDF")
+        return j["type"] == "ivp" and j["method"] in cap
     tagged = [(j, features(j)) for j in jobs]
     for j, tags in tagged:
         if len(out) >= n:
             break
         if any(count.get(t, 0) < per_tag for t in tags):
             if is_slow(j):
-                if slow >= 14:
+                if slow.get(j["method"], 0) >= cap[j["method"]]:
                     continue
-                slow += 1
+                slow[j["method"]] = slow.get(j["method"], 0) + 1
             out.append(j)
             chosen.add(j["key"])
             for t in tags:
@@ -701,7 +729,7 @@ def report(rep, jobs, results):
                           f"solve_ode_{j['type']} failed on problem X{p['id']} of OdeX.tla (order {p['ord']}, solution family "
                           f"{p['yfam']}, interval {p['iv']}, {j['solve']}, transform {tname}, forms {forms}): {out['msg']}", case)
             continue
-        accept = ACCEPT[j["acc"]][how]
+        accept = accept_for(j["type"], j["acc"], how, s["spanform"])
         w = max(out["err"])
         for name in (f"x:{j['type']}:{j['acc']}:{how}", f"x:class:{cls}", f"x:family:{p['yfam']}", f"x:interval:{p['iv']}:{how}"):
             g = calib.setdefault(name, [0.0, 0])
